@@ -8,6 +8,7 @@ import Mathlib.Tactic.Linarith
 import Mathlib.Tactic.NormNum
 import Mathlib.Tactic.FieldSimp
 import Mathlib.Data.List.Perm.Basic
+import Mathlib.Data.List.Nodup
 import Mathlib.Algebra.Order.Field.Rat
 
 namespace CTM.Stats
@@ -1314,5 +1315,191 @@ theorem truncate_direct_spec (g : Nat) (data : Buffer) (oltr : List (Nat × Nat)
       obtain ⟨r, a, _, c⟩ := hlook p hp
       exact ⟨r, a, c⟩), List.map_map]
     rfl
+
+
+/-! ### collapse of a directly computed file = direct computation with the coarser labelling -/
+
+theorem filter_or_perm {α : Type} (P Q : α → Bool) : ∀ (l : List α),
+    (∀ x ∈ l, P x = true → Q x = false) →
+      (l.filter P ++ l.filter Q).Perm (l.filter (fun x => P x || Q x)) := by
+  intro l
+  induction l with
+  | nil => intro _; exact List.Perm.refl _
+  | cons x l ih =>
+    intro h
+    have ih' := ih (fun y hy => h y (by simp [hy]))
+    cases hP : P x
+    · cases hQ : Q x
+      · simpa [List.filter_cons, hP, hQ] using ih'
+      · simp only [List.filter_cons, hP, hQ, Bool.false_eq_true, if_false, if_true, Bool.or_true]
+        exact List.perm_middle.trans (List.Perm.cons x ih')
+    · have hQ : Q x = false := h x (by simp) hP
+      simp only [List.filter_cons, hP, hQ, Bool.false_eq_true, if_false, if_true, Bool.or_false,
+        List.cons_append]
+      exact List.Perm.cons x ih'
+
+theorem flatten_filter_perm {α β : Type} (cells : List α) (key : α → Option Nat) (rowf : β → Nat) :
+    ∀ (ps : List β), (ps.map rowf).Nodup →
+      ((ps.map (fun p => cells.filter (fun c => key c == some (rowf p)))).flatten).Perm
+        (cells.filter (fun c => ps.any (fun p => key c == some (rowf p)))) := by
+  intro ps
+  induction ps with
+  | nil => intro _; simp
+  | cons p ps ih =>
+    intro hnd
+    rw [List.map_cons, List.nodup_cons] at hnd
+    simp only [List.map_cons, List.flatten_cons, List.any_cons]
+    refine ((List.Perm.refl _).append (ih hnd.2)).trans (filter_or_perm _ _ cells ?_)
+    intro c _ hc
+    have hc' : key c = some (rowf p) := by simpa using hc
+    rw [Bool.eq_false_iff]
+    intro hany
+    simp only [List.any_eq_true] at hany
+    obtain ⟨q, hq, hcq⟩ := hany
+    rw [hc'] at hcq
+    have : rowf p = rowf q := by simpa using hcq
+    exact hnd.1 (this ▸ List.mem_map_of_mem hq)
+
+theorem indexIn_of_nodup : ∀ (xs : List Nat), xs.Nodup → ∀ (i : Nat) (h : i < xs.length),
+    indexIn xs xs[i] = some i := by
+  intro xs
+  induction xs with
+  | nil => intro _ i h; simp at h
+  | cons y ys ih =>
+    intro hnd i h
+    rw [List.nodup_cons] at hnd
+    cases i with
+    | zero => simp [indexIn]
+    | succ i =>
+      have hi : i < ys.length := by simpa using h
+      have hne : ys[i] ≠ y := by
+        intro he; exact hnd.1 (he ▸ List.getElem_mem hi)
+      simp [indexIn, hne, ih hnd.2 i hi]
+
+theorem truncate_precompute_spec (nC g : Nat) (ntr ntr' : List (Nat × Nat))
+    (files : List (Nat × List CellRec)) (rows nProc rows' nProc' : Nat)
+    (oltr : List (Nat × Nat)) (newLeaves : List Nat) (anc : List (Nat × Nat))
+    (hrows : 1 ≤ rows) (hproc : 1 ≤ nProc) (hrows' : 1 ≤ rows') (hproc' : 1 ≤ nProc')
+    (hntr : ∀ p ∈ ntr, p.2 < nC) (hw : ∃ f ∈ files, wanted ntr f.2 = true)
+    (hntr' : ∀ p ∈ ntr', p.2 < newLeaves.length) (hw' : ∃ f ∈ files, wanted ntr' f.2 = true)
+    (hnd : newLeaves.Nodup) (hkeys : (anc.map (·.1)).Nodup)
+    (hlook : ∀ p ∈ anc, ∃ r, oltr.lookup p.1 = some r ∧ r < nC)
+    (hinj : ∀ p ∈ anc, ∀ q ∈ anc, oltr.lookup p.1 = oltr.lookup q.1 → p.1 = q.1)
+    (hanc : ∀ p ∈ anc, p.2 ∈ newLeaves)
+    (hnew : ∀ (cell : CellRec) (i : Nat), rowOf ntr' cell = some i ↔
+      ∃ p ∈ anc, ∃ r, oltr.lookup p.1 = some r ∧ rowOf ntr cell = some r ∧
+        indexIn newLeaves p.2 = some i) :
+    ∃ buf, precompute nC g ntr files rows nProc = .ok buf ∧
+      truncate g buf oltr newLeaves anc
+        = precompute newLeaves.length g ntr' files rows' nProc' := by
+  obtain ⟨buf, e, hl, hr⟩ := precompute_spec nC g ntr files rows nProc hrows hproc hntr hw
+  obtain ⟨buf', e', hl', hr'⟩ :=
+    precompute_spec newLeaves.length g ntr' files rows' nProc' hrows' hproc' hntr' hw'
+  let cells := files.flatMap (·.2)
+  let rowf : Nat × Nat → Nat := fun p => (oltr.lookup p.1).getD 0
+  obtain ⟨out, t1, t2, t3⟩ := truncate_direct_spec g buf oltr newLeaves anc
+    (fun l => (cellsOfRow ntr ((oltr.lookup l).getD 0) cells).map (fun cell => cellStat cell.vals))
+    (by
+      intro p hp
+      obtain ⟨r, h1, h2⟩ := hlook p hp
+      refine ⟨r, h1, by omega, ?_⟩
+      rw [hr r h2, h1]; rfl) hanc
+  refine ⟨buf, e, ?_⟩
+  rw [t1, e']
+  congr 1
+  apply List.ext_getElem?
+  intro i
+  by_cases hi : i < newLeaves.length
+  · have hidx := indexIn_of_nodup newLeaves hnd i hi
+    rw [t3 _ i hidx, hr' i hi]
+    congr 2
+    have hmf : ∀ (ps : List (Nat × Nat)),
+        (ps.map (fun p => (cellsOfRow ntr ((oltr.lookup p.1).getD 0) cells).map
+            (fun cell => cellStat cell.vals))).flatten
+          = ((ps.map (fun p => cells.filter (fun c => rowOf ntr c == some (rowf p)))).flatten).map
+              (fun cell => cellStat cell.vals) := by
+      intro ps
+      rw [List.map_flatten, List.map_map]
+      rfl
+    rw [hmf]
+    have hsub : (anc.filter (fun p => p.2 == newLeaves[i])).Sublist anc := List.filter_sublist
+    have hnd2 : ((anc.filter (fun p => p.2 == newLeaves[i])).map rowf).Nodup := by
+      have h1 : ((anc.filter (fun p => p.2 == newLeaves[i])).map (·.1)).Nodup :=
+        hkeys.sublist (hsub.map _)
+      have : (anc.filter (fun p => p.2 == newLeaves[i])).map rowf
+          = ((anc.filter (fun p => p.2 == newLeaves[i])).map (·.1)).map
+              (fun l => (oltr.lookup l).getD 0) := by
+        rw [List.map_map]; rfl
+      rw [this]
+      apply List.Nodup.map_on _ h1
+      intro a ha b hb hab
+      simp only [List.mem_map] at ha hb
+      obtain ⟨p, hp, rfl⟩ := ha
+      obtain ⟨q, hq, rfl⟩ := hb
+      have hp' := hsub.subset hp
+      have hq' := hsub.subset hq
+      obtain ⟨r1, h1, _⟩ := hlook p hp'
+      obtain ⟨r2, h2, _⟩ := hlook q hq'
+      apply hinj p hp' q hq'
+      rw [h1, h2] at hab ⊢
+      simpa using hab
+    rw [rowSum_perm ((flatten_filter_perm cells (rowOf ntr) rowf _ hnd2).map _)]
+    simp only [S, cellsOfRow]
+    congr 2
+    apply List.filter_congr
+    intro cell _
+    rw [Bool.eq_iff_iff]
+    simp only [List.any_eq_true, List.mem_filter, beq_iff_eq]
+    rw [hnew cell i]
+    constructor
+    · rintro ⟨p, ⟨hp, hpL⟩, hrow⟩
+      obtain ⟨r, h1, _⟩ := hlook p hp
+      refine ⟨p, hp, r, h1, ?_, ?_⟩
+      · rw [hrow]; simp [rowf, h1]
+      · rw [hpL]; exact hidx
+    · rintro ⟨p, hp, r, h1, hrow, hpi⟩
+      refine ⟨p, ⟨hp, ?_⟩, ?_⟩
+      · have := indexIn_getElem? newLeaves p.2 i hpi
+        rw [List.getElem?_eq_getElem hi] at this
+        simpa using this.symm
+      · rw [hrow]; simp [rowf, h1]
+  · rw [List.getElem?_eq_none (by omega), List.getElem?_eq_none (by omega)]
+
+/-! ### the written row, field by field -/
+
+theorem precompute_fields (nC g : Nat) (ntr : List (Nat × Nat))
+    (files : List (Nat × List CellRec)) (rows nProc : Nat)
+    (hrows : 1 ≤ rows) (hproc : 1 ≤ nProc) (hntr : ∀ p ∈ ntr, p.2 < nC)
+    (hw : ∃ f ∈ files, wanted ntr f.2 = true)
+    (hg : ∀ f ∈ files, ∀ cell ∈ f.2, cell.vals.length = g) :
+    ∃ buf, precompute nC g ntr files rows nProc = .ok buf ∧
+      ∀ (c j : Nat), c < nC → j < g → ∃ (row : Row) (s : GStat),
+        buf[c]? = some row ∧ row.genes[j]? = some s ∧
+        row.n = (cellsOfRow ntr c (files.flatMap (·.2))).length ∧
+        s.sum = ((cellsOfRow ntr c (files.flatMap (·.2))).map
+          (fun cell => cell.vals.getD j 0)).sum ∧
+        s.sumsq = ((cellsOfRow ntr c (files.flatMap (·.2))).map
+          (fun cell => cell.vals.getD j 0 * cell.vals.getD j 0)).sum ∧
+        s.gt0 = ((cellsOfRow ntr c (files.flatMap (·.2))).map
+          (fun cell => (geneStat (cell.vals.getD j 0)).gt0)).sum ∧
+        s.gt1 = ((cellsOfRow ntr c (files.flatMap (·.2))).map
+          (fun cell => (geneStat (cell.vals.getD j 0)).gt1)).sum ∧
+        s.ge1 = ((cellsOfRow ntr c (files.flatMap (·.2))).map
+          (fun cell => (geneStat (cell.vals.getD j 0)).ge1)).sum := by
+  obtain ⟨buf, e, _, r⟩ := precompute_spec nC g ntr files rows nProc hrows hproc hntr hw
+  refine ⟨buf, e, fun c j hc hj => ?_⟩
+  have hS : S ntr c (files.flatMap (·.2))
+      = summaryStats ((cellsOfRow ntr c (files.flatMap (·.2))).map (·.vals)) :=
+    (summaryStats_cellsOfRow ntr c _).symm
+  have hlen : ∀ v ∈ (cellsOfRow ntr c (files.flatMap (·.2))).map (·.vals), v.length = g := by
+    intro v hv
+    simp only [List.mem_map, cellsOfRow, List.mem_filter, List.mem_flatMap] at hv
+    obtain ⟨cell, ⟨⟨f, hf, hcell⟩, _⟩, rfl⟩ := hv
+    exact hg f hf cell hcell
+  have hf := colStat_fields ((cellsOfRow ntr c (files.flatMap (·.2))).map (·.vals)) j
+  simp only [List.map_map, Function.comp_def] at hf
+  refine ⟨_, colStat ((cellsOfRow ntr c (files.flatMap (·.2))).map (·.vals)) j, r c hc, ?_, ?_, hf⟩
+  · rw [hS]; exact zero_add_summaryStats_genes g _ hlen j hj
+  · rw [hS]; simp [Row.add, Row.zero, summaryStats_n]
 
 end CTM.Stats
